@@ -53,11 +53,34 @@ func newRawServerConn(
 		qlogger:        qlogger,
 		logger:         logger,
 	}
-	c.rawConn = *newRawConn(conn, enableDatagrams, c.onStreamsEmpty, nil, qlogger, logger)
+	c.rawConn = *newRawConn(conn, enableDatagrams, c.onStreamsEmpty, c.handleControlStream, qlogger, logger)
 	if idleTimeout > 0 {
 		c.idleTimer = time.AfterFunc(idleTimeout, c.onIdleTimer)
 	}
 	return c
+}
+
+// handleControlStream reads the client's control stream after the SETTINGS frame.
+// The control stream must stay open for the lifetime of the connection, and the only frames a
+// client may send on it after SETTINGS are GOAWAY, MAX_PUSH_ID and CANCEL_PUSH (the latter two
+// are skipped by the frame parser). See RFC 9114, sections 6.2.1 and 7.2.
+func (c *RawServerConn) handleControlStream(str *quic.ReceiveStream, fp *frameParser) {
+	for {
+		f, err := fp.ParseNext(c.qlogger)
+		if err != nil {
+			var serr *quic.StreamError
+			if err == io.EOF || errors.As(err, &serr) {
+				c.rawConn.conn.CloseWithError(quic.ApplicationErrorCode(ErrCodeClosedCriticalStream), "")
+				return
+			}
+			c.rawConn.conn.CloseWithError(quic.ApplicationErrorCode(ErrCodeFrameError), "")
+			return
+		}
+		if _, ok := f.(*goAwayFrame); !ok {
+			c.rawConn.conn.CloseWithError(quic.ApplicationErrorCode(ErrCodeFrameUnexpected), "")
+			return
+		}
+	}
 }
 
 func (c *RawServerConn) onStreamsEmpty() {
